@@ -412,6 +412,172 @@ static void dispatch(const std::string& op, vh::Reader& r, vh::Out& o)
 	else
 		o.w("HARNESSERR unknown_op");
 }
+// K step_1 .. step_K on the live objects;  step = m k <mutator> | v k <mutator> | o <op> <args>
+static void life_body(vh::Reader& r, vh::Out& o)
+{
+	long steps = r.integer();
+	for(long s = 0; s < steps; s++)
+	{
+		std::string w = r.word();
+		if(w == "m") { long k = r.integer(); live_mat(k); mat_step(g_ms[k], r); }
+		else if(w == "v") { long k = r.integer(); live_vec(k); vec_step(g_vs[k], r); }
+		else if(w == "o") { std::string f = r.word(); dispatch(f, r, o); o.w("|"); }
+		else { std::fprintf(stderr, "unknown life step\n"); std::abort(); }
+	}
+}
+// what f prints, in a forked child: `EXIT` when the library terminates the child
+template <class F>
+static std::string forked(F f)
+{
+	int pfd[2];
+	if(pipe(pfd) != 0)
+		return "HARNESSERR pipe";
+	fflush(stdout);
+	fflush(stderr);
+	pid_t pid = fork();
+	if(pid == 0)
+	{
+		close(pfd[0]);
+		vh::Out oc;
+		f(oc);
+		std::string s = oc.s.str();
+		size_t off	  = 0;
+		while(off < s.size())
+		{
+			ssize_t n = write(pfd[1], s.data() + off, s.size() - off);
+			if(n <= 0)
+				break;
+			off += (size_t) n;
+		}
+		_exit(0);
+	}
+	close(pfd[1]);
+	std::string got;
+	char b[4096];
+	ssize_t n;
+	while((n = read(pfd[0], b, sizeof b)) > 0)
+		got.append(b, (size_t) n);
+	close(pfd[0]);
+	int st = 0;
+	waitpid(pid, &st, 0);
+	if(WIFEXITED(st) && WEXITSTATUS(st) == 0)
+		return got;
+	if(WIFEXITED(st))
+		return WEXITSTATUS(st) == 77 ? "HARNESSERR" : "EXIT";
+	return "CRASH";
+}
+// ---- objects RETURNED by the library (`made` cases; grammar: checks/C04.py).  One producer = `kind L tok_1 .. tok_L`; the object it
+// returns becomes the next live matrix / vector (copy-elided or copy-constructed from the returned temporary, never rebuilt from
+// entries); matrix / vector arguments of a producer are tables / lists or `@j` = an object made earlier in the same case.
+static void producer(vh::Reader& r)
+{
+	std::string p = r.word();
+	r.integer();
+	auto M = [](const Matrix& m) { g_ms.emplace_back(new Matrix(m)); };
+	auto V = [](const Vector& v) { g_vs.emplace_back(new Vector(v)); };
+	if(p == "tr") { Matrix& A = rd_mat(r); g_ms.emplace_back(new Matrix(A.Transpose())); }
+	else if(p == "sb") { Matrix& A = rd_mat(r); long i = r.integer(), j = r.integer(); g_ms.emplace_back(new Matrix(A.Sub_Matrix((int) i, (int) j))); }
+	else if(p == "ou") { Vector &u = rd_vec(r), &v = rd_vec(r); g_ms.emplace_back(new Matrix(Outer_Vector_Product(u, v))); }
+	else if(p == "id") { long k = r.integer(); g_ms.emplace_back(new Matrix(Identity_Matrix((unsigned int) k))); }
+	else if(p == "mp") { Matrix &A = rd_mat(r), &B = rd_mat(r); g_ms.emplace_back(new Matrix(A * B)); }
+	else if(p == "pr") { Matrix &A = rd_mat(r), &B = rd_mat(r); g_ms.emplace_back(new Matrix(A.Product(B))); }
+	else if(p == "pl") { Matrix &A = rd_mat(r), &B = rd_mat(r); g_ms.emplace_back(new Matrix(A + B)); }
+	else if(p == "pn") { Matrix &A = rd_mat(r), &B = rd_mat(r); g_ms.emplace_back(new Matrix(A.Plus(B))); }
+	else if(p == "mi") { Matrix &A = rd_mat(r), &B = rd_mat(r); g_ms.emplace_back(new Matrix(A - B)); }
+	else if(p == "ms") { Matrix& A = rd_mat(r); double x = r.num(); g_ms.emplace_back(new Matrix(A * x)); }
+	else if(p == "sm") { double x = r.num(); Matrix& A = rd_mat(r); g_ms.emplace_back(new Matrix(x * A)); }
+	else if(p == "dv") { Matrix& A = rd_mat(r); double x = r.num(); g_ms.emplace_back(new Matrix(A / x)); }
+	else if(p == "fl") { long a = r.integer(), b = r.integer(); double e = r.num(); g_ms.emplace_back(new Matrix((unsigned int) a, (unsigned int) b, e)); }
+	else if(p == "dg") { std::vector<double> d = r.list(); g_ms.emplace_back(new Matrix(d)); }
+	else if(p == "cp") { Matrix& A = rd_mat(r); M(A); }
+	else if(p == "hs")
+	{
+		std::unique_ptr<Matrix> A(new Matrix(r.table()));
+		long n = r.integer();
+		for(long s = 0; s < n; s++)
+			mat_step(A, r);
+		g_ms.push_back(std::move(A));
+	}
+	else if(p == "bk")
+	{
+		long gr = r.integer();
+		std::vector<std::vector<Matrix>> g;
+		for(long a = 0; a < gr; a++)
+		{
+			long gc = r.integer();
+			std::vector<Matrix> row;
+			for(long b = 0; b < gc; b++)
+				row.push_back(rd_mat(r));
+			g.push_back(row);
+		}
+		g_ms.emplace_back(new Matrix(Matrix(g)));
+	}
+	// members and free functions outside the property's list that hand out Matrix / Vector objects
+	else if(p == "iv") { Matrix& A = rd_mat(r); g_ms.emplace_back(new Matrix(A.Inverse())); }
+	else if(p == "ro") { double al = r.num(); long d = r.integer(); Vector& ax = rd_vec(r); g_ms.emplace_back(new Matrix(Rotation_Matrix(al, (int) d, ax))); }
+	else if(p == "qq") { Matrix& A = rd_mat(r); g_ms.emplace_back(new Matrix(QR_Decomposition(A).first)); }
+	else if(p == "qr") { Matrix& A = rd_mat(r); g_ms.emplace_back(new Matrix(QR_Decomposition(A).second)); }
+	else if(p == "rn") { Matrix& A = rd_mat(r); g_ms.emplace_back(new Matrix(Round(A))); }
+	// vectors
+	else if(p == "rr") { Matrix& A = rd_mat(r); long i = r.integer(); g_vs.emplace_back(new Vector(A.Return_Row((unsigned int) i))); }
+	else if(p == "rc") { Matrix& A = rd_mat(r); long i = r.integer(); g_vs.emplace_back(new Vector(A.Return_Column((unsigned int) i))); }
+	else if(p == "mv") { Matrix& A = rd_mat(r); Vector& v = rd_vec(r); g_vs.emplace_back(new Vector(A * v)); }
+	else if(p == "vm") { Vector& v = rd_vec(r); Matrix& A = rd_mat(r); g_vs.emplace_back(new Vector(v * A)); }
+	else if(p == "cr") { Vector &u = rd_vec(r), &v = rd_vec(r); g_vs.emplace_back(new Vector(u.Cross(v))); }
+	else if(p == "nd") { Vector& u = rd_vec(r); g_vs.emplace_back(new Vector(u.Normalized())); }
+	else if(p == "sc") { Vector& u = rd_vec(r); double x = r.num(); g_vs.emplace_back(new Vector(u * x)); }
+	else if(p == "sp") { double a = r.num(), b = r.num(), c = r.num(); g_vs.emplace_back(new Vector(Spherical_Coordinates(a, b, c))); }
+	else if(p == "vc") { Vector& u = rd_vec(r); V(u); }
+	else { std::fprintf(stderr, "unknown producer %s\n", p.c_str()); _exit(77); }
+}
+// made NP producer_1 .. producer_NP K step_1 .. step_K: the session `K step_1 .. step_K` (steps of `life`) once on the returned
+// objects themselves, `&&`, once on objects built from literals with the same entries (Matrix(vector<vector<double>>),
+// Vector(vector<double>)), `&&`, the returned objects as Rows() / Columns() / operator[] (Size() / operator[]) show them.
+static void made(vh::Reader& r, vh::Out& o)
+{
+	long np = r.integer();
+	for(long k = 0; k < np; k++)
+		producer(r);
+	vh::Out shown;
+	std::vector<std::unique_ptr<Matrix>> lm;
+	std::vector<std::unique_ptr<Vector>> lv;
+	for(auto& pm : g_ms)
+	{
+		const Matrix& A = *pm;
+		put(shown, A);
+		std::vector<std::vector<double>> e;
+		for(unsigned int i = 0; i < A.Rows(); i++)
+		{
+			std::vector<double> row;
+			for(unsigned int j = 0; j < A.Columns(); j++)
+				row.push_back(A[i][j]);
+			e.push_back(row);
+		}
+		if(A.Rows() > 0 && A.Columns() > 0)
+			lm.emplace_back(new Matrix(e));
+		else
+			lm.emplace_back(new Matrix(A.Rows(), A.Columns(), 0.0));
+	}
+	for(auto& pv : g_vs)
+	{
+		const Vector& v = *pv;
+		put(shown, v);
+		std::vector<double> e;
+		for(unsigned int i = 0; i < v.Size(); i++)
+			e.push_back(v[i]);
+		lv.emplace_back(new Vector(e));
+	}
+	const vh::Reader at = r;
+	std::string a = forked([&](vh::Out& oc) { vh::Reader rc = at; life_body(rc, oc); });
+	g_ms.swap(lm);
+	g_vs.swap(lv);
+	std::string b = forked([&](vh::Out& oc) { vh::Reader rc = at; life_body(rc, oc); });
+	o.w(a);
+	o.w("&&");
+	o.w(b);
+	o.w("&&");
+	o.w(shown.s.str());
+}
 // ---- calls of OTHER facilities of the library (`amb` cases): `name L tok_1 .. tok_L`; their results are not part of the answer
 static volatile double g_sink = 0.0;
 static void foreign_call(const std::string& name, vh::Reader& r)
@@ -470,6 +636,11 @@ static void handler_inner(vh::Reader& r, vh::Out& o)
 		g_hist = true;
 		op	   = r.word();
 	}
+	if(op == "made")
+	{
+		made(r, o);
+		return;
+	}
 	if(op != "life")
 	{
 		dispatch(op, r, o);
@@ -482,15 +653,7 @@ static void handler_inner(vh::Reader& r, vh::Out& o)
 	long nv = r.integer();
 	for(long k = 0; k < nv; k++)
 		g_vs.emplace_back(new Vector(r.list()));
-	long steps = r.integer();
-	for(long s = 0; s < steps; s++)
-	{
-		std::string w = r.word();
-		if(w == "m") { long k = r.integer(); live_mat(k); mat_step(g_ms[k], r); }
-		else if(w == "v") { long k = r.integer(); live_vec(k); vec_step(g_vs[k], r); }
-		else if(w == "o") { std::string f = r.word(); dispatch(f, r, o); o.w("|"); }
-		else { std::fprintf(stderr, "unknown life step\n"); std::abort(); }
-	}
+	life_body(r, o);
 }
 // the same request answered by a child process that runs in the control state the harness started with and has made no
 // other call: `EXIT` when the library terminates it
